@@ -332,10 +332,23 @@ class Plan:
                     sev=SEV[int(o.get('sev', 0)) % 3], wm=bool(o.get('wm', False)), meta=_jsonish(o.get('meta') if isinstance(o.get('meta'), dict) else {}),
                 )
             )
+        if spec.get('pfx'):
+            # prefix family (run10 / run1 / run): the pool model whose name is written first (store or
+            # store_annotation) gets the longest name, models written later get proper prefixes of it
+            stem = self.models[0]['name'][:10] or 'run'  # keeps the adversarial characters of the generated name
+            if stem in ('input', 'final'):
+                stem += '_'
+            order = []
+            for o in self.ops:
+                if o['kind'] in ('store', 'annotate') and o['m'] not in order:
+                    order.append(o['m'])
+            order += [i for i in range(len(self.models)) if i not in order]
+            for rank, i in enumerate(order):
+                self.models[i]['name'] = stem + ['10', '1', ''][rank]
         self.k = max(0, int(spec.get('k', 0) or 0))
         self.cut = max(0, min(1000, int(spec.get('cut', 0) or 0)))
         self.mode = 'enospc' if spec.get('mode') == 'enospc' else 'crash'
-        self.wkey = spec_hash([self.top, self.models, self.ops])
+        self.wkey = spec_hash([self.top, self.models, self.ops])  # models carry the final names
 
     def render(self):
         out = [f'top={self.top!r}']
@@ -1100,8 +1113,8 @@ _SPECIAL = [
     'über', 'Ж日本', 'a\nb', 'a\r\nb', 'tab\there', 'a;b', '#c', '-', 'ctx,2020,info,"x"', 'run1', 'x' * 30, 'é', '%s', '\\', "a'b",
 ]
 # name families in which one name is a proper prefix of another (run1 / run10, base / base_iiv, final / final2)
-_FAMILY = st.tuples(st.shared(_SAFE, key='c16-name-stem'), st.sampled_from(['', '', '0', '1', '10', '_iiv', '2'])).map(''.join)
-_FAMILY = st.one_of(_FAMILY, _FAMILY, st.sampled_from(['final2', 'input_1', 'inputs', 'finalized']))
+_FAMILY = st.tuples(st.shared(_SAFE, key='c16-name-stem'), st.sampled_from(['', '', '', '1', '1', '10', '_iiv', '2'])).map(''.join)
+_FAMILY = st.one_of(_FAMILY, _FAMILY, _FAMILY, _FAMILY, st.sampled_from(['final2', 'input_1', 'inputs', 'finalized']))
 _TEXT = st.one_of(_SAFE, st.sampled_from(_SPECIAL), st.sampled_from(_SPECIAL), st.text(alphabet=list('ab1 ,"\'\n;#ü日.-_\\'), max_size=8))
 _BENIGN = st.one_of(_SAFE, st.sampled_from(['a,b', 'say "hi"', 'two words', 'line1\nline2', 'über', 'x;y']))
 _META = st.dictionaries(st.sampled_from(['a', 'tool', 'n', 'ü']), st.one_of(st.integers(-5, 5), st.booleans(), st.none(), st.sampled_from(['x', 'a,b', '"q"', '', 'NA']), st.lists(st.integers(0, 3), max_size=2), st.floats(-2, 2, allow_nan=False).map(lambda x: round(x, 3))), max_size=3)
@@ -1114,15 +1127,18 @@ def _workload(text, names, benign):
     # op codes index OPS; stores dominate fault workloads, log operations are as frequent as stores in text workloads
     codes = [0, 0, 0, 1, 1, 2, 3, 4, 5, 6, 7, 8] if benign else [0, 0, 0, 1, 1, 1, 1, 2, 3, 4, 5, 6, 6, 7, 8]
     op = st.fixed_dictionaries(
-        dict(op=st.sampled_from(codes), m=st.integers(0, 2), c=st.integers(0, 2), t=text, sev=st.integers(0, 2), wm=st.booleans(), meta=_META)
+        dict(op=st.sampled_from(codes), m=st.sampled_from([0, 1, 2]), c=st.sampled_from([0, 0, 0, 1, 2]), t=text, sev=st.integers(0, 2), wm=st.booleans(), meta=_META)
     )
     return st.fixed_dictionaries(
-        dict(top=names if not benign else st.just('ctx'), models=st.lists(model, min_size=1, max_size=3), ops=st.lists(op, min_size=1 if benign else 2, max_size=4))
+        dict(
+            top=names if not benign else st.just('ctx'), models=st.lists(model, min_size=2, max_size=3), ops=st.lists(op, min_size=2 if benign else 3, max_size=4),
+            pfx=st.sampled_from([True, True, False]),
+        )
     )
 
 
-WORKLOAD_TEXT = _workload(_TEXT, st.one_of(_SAFE, _FAMILY, _FAMILY, _TEXT), benign=False)
-WORKLOAD_BENIGN = _workload(_BENIGN, st.one_of(_SAFE, _FAMILY), benign=True)
+WORKLOAD_TEXT = _workload(_TEXT, st.one_of(_FAMILY, _FAMILY, _FAMILY, _SAFE, _TEXT, _TEXT), benign=False)
+WORKLOAD_BENIGN = _workload(_BENIGN, st.one_of(_SAFE, _FAMILY, _FAMILY), benign=True)
 
 
 def _faithful_strategy():
@@ -1726,7 +1742,7 @@ def _conc_strategy():
 
 
 SUBCHECKS = [
-    SubCheck('faithful', _faithful_strategy, run_case, quick=256, thorough=6000, quick_time=400.0, describe='fault-free workloads with adversarial text'),
+    SubCheck('faithful', _faithful_strategy, run_case, quick=224, thorough=6000, quick_time=400.0, describe='fault-free workloads with adversarial text'),
     SubCheck(
         'faults', _sampled_strategy, run_fault, quick=64, thorough=3200, enumerate=enum_faults, quick_time=600.0, thorough_time=3000.0,
         describe='every operation k of the enumerated workloads in mode crash (+ torn writes) and enospc; plus generated workloads with a sampled fault point',
